@@ -589,7 +589,10 @@ Proof.
     destruct (is_loop_typed kx).
     + destruct (obj_id kx) as [i|]; cbn [bind] in E; [|discriminate].
       destruct (ostr_eqb i (Some next)).
-      * eapply IH; [|exact E]. apply Hk. left; reflexivity.
+      * destruct (loop_gfms f h k (format_path (set_loop_list xp rest'))) as [[t'|]|] eqn:Er;
+          cbn [bind] in E; try discriminate.
+        -- injection E as <-. eapply IH; [|exact Er]. apply Hk. left; reflexivity.
+        -- apply IHk; [exact E|intros; apply Hk; right; assumption].
       * apply IHk; [exact E|intros; apply Hk; right; assumption].
     + apply IHk; [exact E|intros; apply Hk; right; assumption].
 Qed.
@@ -1017,7 +1020,10 @@ Proof.
     destruct (is_loop_typed a); [|exact IHk].
     rewrite (obj_id_sim a b) by apply Sab.
     destruct (obj_id a) as [i|]; cbn [bind]; [|reflexivity].
-    destruct (ostr_eqb i (Some next)); [apply IH|exact IHk].
+    destruct (ostr_eqb i (Some next)); [|exact IHk].
+    rewrite IH.
+    destruct (loop_gfms f h k (format_path (set_loop_list xp rest'))) as [[t'|]|]; cbn [bind];
+      [reflexivity|exact IHk|reflexivity].
 Qed.
 
 Lemma seg_gfms_sim h h' self p :
@@ -1706,7 +1712,9 @@ Definition gfms_body (rec : oid -> str -> result (option oid)) (h : heap) (cp : 
                    do cx <- h_get h c;
                    if is_loop_typed cx then
                      do i <- obj_id cx;
-                     if ostr_eqb i (Some next) then rec c (format_path (set_loop_list xp rest))
+                     if ostr_eqb i (Some next) then
+                       (do res <- rec c (format_path (set_loop_list xp rest));
+                        match res with Some t => Ok (Some t) | None => go r end)
                      else go r
                    else go r
                end) kids)
@@ -1724,31 +1732,42 @@ Proof. destruct p; reflexivity. Qed.
 Lemma try_engine_some {A} (r : result (option A)) t : r = Ok (Some t) -> try_engine r = Ok (Some t).
 Proof. intros ->. reflexivity. Qed.
 
-Lemma gfms_body_mono (rec rec' : oid -> str -> result (option oid)) h cp t :
-  (forall c q, rec c q = Ok (Some t) -> rec' c q = Ok (Some t)) ->
-  gfms_body rec h cp = Ok (Some t) -> gfms_body rec' h cp = Ok (Some t).
+Lemma try_engine_ok_any {A} (r : result A) a : r = Ok a -> try_engine r = Ok a.
+Proof. intros ->. reflexivity. Qed.
+
+(* a repeat of the intermediate loop that yields nothing is passed over, so a normal outcome of the
+   recursive call of either kind (a node, or nothing) has to be stable, not only a found node *)
+Lemma gfms_body_mono (rec rec' : oid -> str -> result (option oid)) h cp :
+  (forall c q r, rec c q = Ok r -> rec' c q = Ok r) ->
+  forall r, gfms_body rec h cp = Ok r -> gfms_body rec' h cp = Ok r.
 Proof.
-  intros M E. unfold gfms_body in *.
+  intros M r E. unfold gfms_body in *.
   destruct (parse_path (snd cp)) as [xp|]; cbn [bind] in *; [|discriminate].
-  destruct (seg_id xp); [|discriminate].
+  destruct (seg_id xp); [|exact E].
   destruct (match fst cp with RObj c => _ | _ => _ end) as [kids|]; cbn [bind] in *; [|discriminate].
   destruct (loop_list xp) as [|next rest]; [exact E|].
-  apply try_engine_ok in E. apply try_engine_some.
-  induction kids as [|k kids IHk]; [discriminate|].
+  apply try_engine_ok in E. apply try_engine_ok_any.
+  induction kids as [|k kids IHk]; [exact E|].
   destruct (h_get h k) as [kx|]; cbn [bind] in *; [|discriminate].
   destruct (is_loop_typed kx); [|exact (IHk E)].
   destruct (obj_id kx) as [i|]; cbn [bind] in *; [|discriminate].
-  destruct (ostr_eqb i (Some next)); [apply M; exact E|exact (IHk E)].
+  destruct (ostr_eqb i (Some next)); [|exact (IHk E)].
+  destruct (rec k (format_path (set_loop_list xp rest))) as [res|] eqn:Er; cbn [bind] in E; [|discriminate].
+  rewrite (M _ _ _ Er). cbn [bind].
+  destruct res as [t'|]; [exact E|exact (IHk E)].
 Qed.
 
-Lemma loop_gfms_mono h t : forall f f' c q, f <= f' -> loop_gfms f h c q = Ok (Some t) -> loop_gfms f' h c q = Ok (Some t).
+Lemma loop_gfms_mono_ok h : forall f f' c q r, f <= f' -> loop_gfms f h c q = Ok r -> loop_gfms f' h c q = Ok r.
 Proof.
-  induction f as [|f IH]; intros f' c q L E; [discriminate|].
+  induction f as [|f IH]; intros f' c q r L E; [discriminate|].
   destruct f' as [|f']; [lia|]. rewrite loop_gfms_S in *.
   destruct q; [discriminate|].
   destruct (get_start_node h c (a :: q)) as [cp|]; cbn [bind] in *; [|discriminate].
-  eapply gfms_body_mono; [|exact E]. intros c' q' E'. eapply IH; [|exact E']. lia.
+  eapply gfms_body_mono; [|exact E]. intros c' q' r' E'. eapply IH; [|exact E']. lia.
 Qed.
+
+Lemma loop_gfms_mono h t : forall f f' c q, f <= f' -> loop_gfms f h c q = Ok (Some t) -> loop_gfms f' h c q = Ok (Some t).
+Proof. intros f f' c q. apply loop_gfms_mono_ok. Qed.
 
 (* _get_start_node returns a rest that does not begin with "../": resolving it again is the identity *)
 Lemma start_node_rest h e :
@@ -1799,5 +1818,5 @@ Proof.
     rewrite Es2 in Eg. cbn [bind] in Eg.
     rewrite loop_gfms_S. destruct p as [|p0 p]; [cbn in Lr; lia|].
     rewrite Es. cbn [bind].
-    eapply gfms_body_mono; [|exact Eg]. intros c q. apply loop_gfms_mono. lia.
+    eapply gfms_body_mono; [|exact Eg]. intros c q r. apply loop_gfms_mono_ok. lia.
 Qed.
